@@ -28,11 +28,16 @@ RECURSIVE Fact(_)
 Fact(m) == IF m <= 1 THEN 1 ELSE m * Fact(m - 1)
 RECURSIVE Pow(_, _)
 Pow(b, e) == IF e = 0 THEN 1 ELSE b * Pow(b, e - 1)
-Binom(m, r) == IF r < 0 \/ r > m THEN 0 ELSE Fact(m) \div (Fact(r) * Fact(m - r))
+(* multiplicative forms: no factorial of 13 or more is ever formed (TLC integers are 32 bit) *)
+RECURSIVE BinomR(_, _)
+BinomR(m, r) == IF r = 0 THEN 1 ELSE (BinomR(m - 1, r - 1) * m) \div r
+Binom(m, r) == IF r < 0 \/ r > m THEN 0 ELSE BinomR(m, IF r > m - r THEN m - r ELSE r)
+RECURSIVE Falling(_, _)
+Falling(m, k) == IF k = 0 THEN 1 ELSE m * Falling(m - 1, k - 1)
 
 ExpectedCount(kind, n, k) ==
     CASE kind = "product" -> Pow(n, k)
-      [] kind = "permutations" -> IF k > n THEN 0 ELSE Fact(n) \div Fact(n - k)
+      [] kind = "permutations" -> IF k > n THEN 0 ELSE Falling(n, k)
       [] kind = "combinations" -> Binom(n, k)
       [] kind = "combinations_with_replacement" -> IF n = 0 THEN (IF k = 0 THEN 1 ELSE 0) ELSE Binom(n + k - 1, k)
 ==============================================================================
